@@ -487,5 +487,39 @@ pub fn run(ctx: &Ctx) -> Report {
     }
     builtin_stream(ctx, &mut rep);
     random_stream(ctx, &mut rep);
+    // the pass-directed templates of C02 (constant Data cast back with the right and the WRONG type,
+    // curried builtins, single-use values) and the constants-through-a-function variants: compile only
+    let mut sources: Vec<(String, String)> = crate::c02::templates().into_iter().map(|(l, s, _)| (l, s)).collect();
+    for (k, t) in [("42", "ByteArray"), ("#\"ab\"", "Int"), ("[1, 2]", "Int"), ("42", "List<Int>"), ("42", "Bool"), ("Some(1)", "ByteArray"), ("42", "Int"), ("#\"ab\"", "ByteArray")] {
+        sources.push((
+            format!("template/const-cast/{}-as-{}", k, t),
+            format!("fn as_data(d: Data) -> Data {{\n  d\n}}\n\nconst some_data: Data = as_data({k})\n\npub fn f(x: Int) {{\n  if x == 0 {{\n    expect _v: {t} = some_data\n    True\n  }} else {{\n    False\n  }}\n}}\n"),
+        ));
+    }
+    rep.count_n("template-sources", sources.len() as u64);
+    for (label, src) in sources {
+        for (sname, tracing) in [("all-silent", Tracing::All(TraceLevel::Silent)), ("all-verbose", Tracing::All(TraceLevel::Verbose))] {
+            rep.evaluations += 1;
+            match comp::check(&src, tracing) {
+                Err(e) if e.starts_with("panic") => rep.fail(&format!("c10-compile:{}:{}:checker-panic", label, sname), "the parser or type checker panicked", json!({"source": src, "tracing": sname}), json!({"panic": e})),
+                Err(_) => rep.count("template:rejected"),
+                Ok(ch) => match comp::compile(&ch, "f", tracing) {
+                    Err(e) if e.starts_with("panic") => {
+                        let prefix = "c10-compile:template-panic:";
+                        if rep.property_failures.iter().filter(|f| f["key"].as_str().map(|k| k.starts_with(prefix)).unwrap_or(false)).count() >= 4 {
+                            rep.count("template:panic-not-listed");
+                        } else {
+                            rep.fail(&format!("{}{}:{}", prefix, label, sname), "the compiler panicked on a module the type checker accepted", json!({"source": src, "function": "f", "tracing": sname}), json!({"panic": e}));
+                        }
+                    }
+                    Err(_) => rep.count("template:harness-error"),
+                    Ok(_) => {
+                        rep.count("template:compile-ok");
+                        rep.nontrivial.insert(format!("template:{}:{}", label, sname));
+                    }
+                },
+            }
+        }
+    }
     rep
 }
